@@ -99,7 +99,7 @@ typedef struct { uint32_t h[8]; } SHA256;
 
 uint32_t g_H[8];
 uint32_t g_v[8];
-uint32_t g_T1, g_T2, g_xk, g_s, g_ti, g_Mj;
+uint32_t g_T1, g_T2, g_xk, g_s, g_ti, g_Mj, g_w0, g_wa, g_wb, g_wc, g_wd;
 size_t g_r, g_r2;
 size_t g_nblk;
 size_t g_k;
@@ -141,7 +141,7 @@ _Bool g_load_ok, g_sched_ok, g_iv_ok;
 #define C10_PB_PTRS(self, blk) (__CPROVER_is_fresh(self, sizeof(C10_T)) && __CPROVER_is_fresh(blk, 64))
 #endif
 
-#define C10_GHOST_SCRATCH g_T1, g_T2, g_xk, g_s, g_ti, g_Mj, g_r, g_r2, g_load_ok, g_sched_ok
+#define C10_GHOST_SCRATCH g_T1, g_T2, g_xk, g_s, g_ti, g_Mj, g_r, g_r2, g_load_ok, g_sched_ok, g_w0, g_wa, g_wb, g_wc, g_wd
 
 void C10_PB(C10_T* self, const void* C10_BLK)
 __CPROVER_requires(C10_PB_PTRS(self, C10_BLK))
@@ -177,7 +177,7 @@ void C10_BIN(const C10_T* self, C10_writer* w)
 __CPROVER_requires(__CPROVER_is_fresh(self, sizeof(C10_T)) && __CPROVER_is_fresh(w, sizeof(C10_writer)))
 __CPROVER_requires(C10_STATE_EQ(self))
 __CPROVER_ensures(w->size == 4 * C10_NW)
-__CPROVER_ensures(g_wi < 4 * C10_NW ==> w->data[g_wi] == C10_DIGEST_BYTE(g_wi))
+__CPROVER_ensures(g_wi < 4 * C10_NW ==> C10_WAT(w) == C10_DIGEST_BYTE(g_wi))
 __CPROVER_assigns(__CPROVER_object_whole(w));
 
 /* hex(): two upper-case hexadecimal digits per digest byte, high nibble first, digest byte order as in bin() */
